@@ -263,8 +263,8 @@ func gen(r *sim.Rng, tier string) *sim.Case {
 	p["variant"] = r.N(8) // bit0: plaintext as string, bit1: secret as string, bit2: aad as string
 	p["emode"] = r.Pick(6, 1, 1)
 	p["echunk"] = []int{0, 0, 1, 3, 7}[r.N(5)]
-	p["rpol"] = r.N(13)
-	p["rpol2"] = r.N(13)
+	p["rpol"] = r.N(14)
+	p["rpol2"] = r.N(14)
 	p["rfail"] = -1
 	p["wfail"] = -1
 	switch p["scen"] {
@@ -409,16 +409,43 @@ func (w *world) reader(data []byte, pol, failAt int, failData bool) *simReader {
 // policies, or (policies 7..9) one of the standard library readers real callers pass, which
 // implement io.WriterTo and hand over everything in one Write.
 func (w *world) peerReader(data []byte, pol int) (io.Reader, func() int) {
+	// the standard library readers real callers pass; half of the time the caller has already
+	// consumed a prefix (a header of its own, a byte it peeked at), or the data is a section of
+	// something bigger: the stream is what is LEFT to read, not what the reader was built from
+	pre := 0
+	if pol >= 7 && pol <= 9 || pol == 13 {
+		w.stats["stdlib_reader_with_WriteTo"]++
+		if w.r.Bool() {
+			pre = 1 + w.r.N(20)
+			w.stats["stdlib_reader_partly_consumed_before_the_call"]++
+		}
+	}
+	whole := append(append(make([]byte, 0, pre+len(data)), bytes.Repeat([]byte{0x5A}, pre)...), data...)
 	switch pol {
 	case 7:
-		w.stats["stdlib_reader_with_WriteTo"]++
-		return bytes.NewReader(data), func() int { return 1 }
+		rd := bytes.NewReader(whole)
+		io.CopyN(io.Discard, rd, int64(pre))
+		return rd, func() int { return 1 }
 	case 8:
-		w.stats["stdlib_reader_with_WriteTo"]++
-		return bytes.NewBuffer(append([]byte{}, data...)), func() int { return 1 }
+		b := bytes.NewBuffer(whole)
+		b.Next(pre)
+		return b, func() int { return 1 }
 	case 9:
-		w.stats["stdlib_reader_with_WriteTo"]++
-		return strings.NewReader(string(data)), func() int { return 1 }
+		rd := strings.NewReader(string(whole))
+		for i := 0; i < pre; i++ {
+			rd.ReadByte()
+		}
+		return rd, func() int { return 1 }
+	case 13:
+		// a section of a larger file-like source, possibly after a Seek
+		tail := w.r.N(9)
+		src := bytes.NewReader(append(whole, bytes.Repeat([]byte{0xA5}, tail)...))
+		if w.r.Bool() {
+			return io.NewSectionReader(src, int64(pre), int64(len(data))), func() int { return 1 }
+		}
+		sr := io.NewSectionReader(src, 0, int64(pre+len(data)))
+		sr.Seek(int64(pre), io.SeekStart)
+		return sr, func() int { return 1 }
 	}
 	rd := w.reader(data, pol, -1, false)
 	return rd, func() int { return rd.calls }
